@@ -60,9 +60,10 @@ static void sequences(Tier t, std::vector<std::vector<int>> &seqs)
 	for (int a = 0; a < n; ++a) if (t == Thorough || a != 6) seqs.push_back({a});
 	for (int a = 0; a < 5; ++a) for (int b = 0; b < 5; ++b) seqs.push_back({a, b});
 	if (t == Thorough) {
-		for (int a = 0; a < 7; ++a) for (int b = 0; b < 7; ++b) if (a >= 5 || b >= 5) seqs.push_back({a, b});
-		for (int a = 0; a < 5; ++a) for (int b = 0; b < 5; ++b) for (int c = 0; c < 5; ++c) seqs.push_back({a, b, c});
-		for (int a : {7, 8, 9}) for (int b = 0; b < 5; ++b) { seqs.push_back({a, b}); seqs.push_back({b, a}); }
+		for (int a = 0; a < 6; ++a) { if (a != 5) { seqs.push_back({a, 5}); seqs.push_back({5, a}); } }
+		seqs.push_back({5, 5});
+		for (int a = 0; a < 4; ++a) for (int b = 0; b < 4; ++b) for (int c = 0; c < 4; ++c) seqs.push_back({a, b, c});
+		for (int a : {6, 7, 8, 9}) for (int b : {1, 3}) { seqs.push_back({a, b}); seqs.push_back({b, a}); }
 	}
 }
 
@@ -262,7 +263,7 @@ static void explore(Run &r, Counters &c, int f, const std::vector<int> &seq, con
 	asan_error();
 
 	std::vector<Geo> sg = geometries(r.tier, true), rg = geometries(r.tier, false);
-	if (total > 64 && r.tier == Quick) sg.resize(2);       // long messages: the receiver is the subject, keep the sender part small
+	if (total > 64) sg.resize(r.tier == Quick ? 2 : 4);    // long messages: the receiver is the subject, keep the sender part small
 
 	if (rep) {
 		// vec = [sgi, resizable, sender actions..., 99, rgi, receiver actions...]
